@@ -31,14 +31,25 @@ def make_cache(backend, scratch):
     raise ValueError(backend)
 
 
+NONE_CODE = -7777
+
+
+def _dec(v):
+    return None if v == NONE_CODE else v
+
+
+def _enc(v):
+    return NONE_CODE if v is None else v
+
+
 def observe(c):
     import klepto._archives as _ar
 
     def amap(a):
         if isinstance(a, _ar.null_archive):
             return None
-        return dict(a.items())
-    return {'mem': dict(dict.items(c)), 'arch': amap(c.archive), 'swp': amap(getattr(c, '__swap__'))}
+        return {k: _enc(v) for k, v in dict(a.items()).items()}
+    return {'mem': {k: _enc(v) for k, v in dict.items(c)}, 'arch': amap(c.archive), 'swp': amap(getattr(c, '__swap__'))}
 
 
 def apply(c, op, scratch):
@@ -46,18 +57,18 @@ def apply(c, op, scratch):
     k = op[0]
     try:
         if k == 'set':
-            c[op[1]] = op[2]
+            c[op[1]] = _dec(op[2])
             return ('unit',)
         if k == 'del':
             del c[op[1]]
             return ('unit',)
         if k == 'pop':
-            return ('val', c.pop(op[1]))
+            return ('val', _enc(c.pop(op[1])))
         if k == 'clear':
             c.clear()
             return ('unit',)
         if k == 'update':
-            c.update(dict(op[1]))
+            c.update(dict((a, _dec(b)) for a, b in op[1]))
             return ('unit',)
         if k == 'load':
             c.load(*op[1])
@@ -78,14 +89,14 @@ def apply(c, op, scratch):
                 new = ar.null_archive('n2', cached=False)
             else:
                 new = ar.dict_archive('fresh', cached=False)
-                new.update(dict(op[1]))
+                new.update(dict((a, _dec(b)) for a, b in op[1]))
             c.open(new)
             return ('unit',)
         if k == 'drop':
             c.drop()
             return ('unit',)
         if k == 'archset':
-            c.archive[op[1]] = op[2]
+            c.archive[op[1]] = _dec(op[2])
             return ('unit',)
         if k == 'archdel':
             del c.archive[op[1]]
@@ -155,9 +166,10 @@ def gen_ops(rng, n, backend):
     for _ in range(n):
         kind = rng.choices(kinds, weights)[0]
         val += 1
+        some = (lambda v: NONE_CODE if rng.random() < 0.12 else v)     # None is a value like any other
         key = rng.randrange(nk)
         if kind == 'set':
-            ops.append(('set', key, val))
+            ops.append(('set', key, some(val)))
         elif kind == 'delete':
             ops.append(('del', key))
         elif kind == 'pop':
@@ -166,7 +178,7 @@ def gen_ops(rng, n, backend):
             ops.append(('clear',))
         elif kind == 'update':
             ks = rng.sample(range(nk), rng.randint(0, nk))
-            ops.append(('update', [(k, val * 10 + i) for i, k in enumerate(ks)]))
+            ops.append(('update', [(k, some(val * 10 + i)) for i, k in enumerate(ks)]))
         elif kind in ('load', 'dump'):
             ks = [] if rng.random() < 0.45 else [rng.randrange(nk) for _ in range(rng.randint(1, 3))]
             ops.append((kind, ks))
@@ -179,11 +191,11 @@ def gen_ops(rng, n, backend):
                 ops.append(('open', None))
             else:
                 ks = rng.sample(range(nk), rng.randint(0, nk))
-                ops.append(('open', [(k, val * 10 + i) for i, k in enumerate(ks)]))
+                ops.append(('open', [(k, some(val * 10 + i)) for i, k in enumerate(ks)]))
         elif kind == 'drop':
             ops.append(('drop',))
         elif kind == 'archset':
-            ops.append(('archset', key, val))
+            ops.append(('archset', key, some(val)))
         elif kind == 'archdel':
             ops.append(('archdel', key))
     return ops
